@@ -29,6 +29,7 @@ type Obligation struct {
 	ShortTimeout              bool
 	smtSliced, smtFull, smtQF, smtLin, smtANL string
 	anl                                       bool // render with nonlinear operations abstracted
+	Cone                                      bool // belongs to a callee verified because the property rests on its contract
 	Detail                    string
 }
 
